@@ -179,6 +179,7 @@ PROPS = {
         'required_theorems': ['C03_tensor_without_instruction_is_returned_unchanged',
                               'C03_quantized_in_place_tensor_gets_selected_dtype',
                               'C03_every_consumer_gets_its_planned_transformations',
+                              'C03_readers_of_a_tensor_without_instruction_are_unchanged',
                               'C03_generator_invents_no_instruction', 'C03_mode_table', 'C03_policy_configs_have_a_mode',
                               'C03_unselected_op_untouched', 'C03_nonfloat_operand_never_quantized',
                               'C03_quantize_tensor_effect',
